@@ -290,16 +290,48 @@ def check_c(ck, repo):
         for s in l.body:
             if isinstance(s, ast.Assign) and src_of(s.value) in ("0", "0.0") and isinstance(s.targets[0], ast.Subscript) and src_of(s.targets[0].slice) == iv:
                 zeroed.add(src_of(s.targets[0].value))
+    # memset(buf, 0, n_samples * sizeof(..)) zero-fills the same range
+    locals_ = {src_of(s_.targets[0]): s_.value for s_ in init.body if isinstance(s_, ast.Assign) and len(s_.targets) == 1 and isinstance(s_.targets[0], ast.Name)}
+    for s_ in ast.walk(init):
+        if isinstance(s_, ast.Expr) and isinstance(s_.value, ast.Call) and src_of(s_.value.func) == "memset" and len(s_.value.args) == 3 and src_of(s_.value.args[1]) == "0":
+            nb = s_.value.args[2]
+            if isinstance(nb, ast.Name) and nb.id in locals_:
+                nb = locals_[nb.id]
+            if isinstance(nb, ast.BinOp) and isinstance(nb.op, ast.Mult) and any(src_of(x) == "self.n_samples" for x in (nb.left, nb.right)) and any(src_of(x).startswith("sizeof(") for x in (nb.left, nb.right)):
+                zeroed.add(src_of(s_.value.args[0]))
     zero_ok = set(bufs) <= zeroed
     ck.verdict(zero_ok, "C09.c", None, f"zero-fill of {sorted(zeroed)} over range(0, n_samples)", "all three cumulative buffers are zero-filled over the whole sample range before the fill", "the cumulative buffers are not all zero-filled over range(0, n_samples): reads that rely on S[start-1] == 0 (weighted_n_left, weighted_n_node_samples, the `start > 0` reads at a node's own start) see stale sums of another node", file=FAST, function=f"{cname}.init_with_X", line=init.lineno)
     # fill: first element absolute at `start`, then S[k] = S[k-1] + term from start+1
     fills = [l for l in ast.walk(init) if isinstance(l, ast.For) and src_of(l.iter) in ("range(start + 1, end)",)]
     firsts = [l for l in ast.walk(init) if isinstance(l, ast.For) and src_of(l.iter) in ("range(start, start + 1)",)]
     okf = False
-    if len(fills) == 1 and len(firsts) == 1:
+
+    def _subst_flags(txt: str) -> str:
+        # a local holding `sample_weight is not None` stands for the test itself
+        for nm, v in locals_.items():
+            if src_of(v) == "sample_weight is not None":
+                txt = txt.replace(f"if {nm} else", "if sample_weight is not None else")
+        return txt
+
+    first_body = None
+    first_var = None
+    if len(firsts) == 1:
+        first_body, first_var = firsts[0].body, src_of(firsts[0].target)
+    elif len(fills) == 1:
+        # the first iteration written out: `k = start` followed by the absolute stores
+        kv0 = src_of(fills[0].target)
+        blk = getattr(fills[0], "_parent", init).body if hasattr(getattr(fills[0], "_parent", init), "body") else init.body
+        pos = [i_ for i_, x in enumerate(blk) if x is fills[0]]
+        if pos:
+            before = blk[: pos[0]]
+            starts = [i_ for i_, x in enumerate(before) if isinstance(x, ast.Assign) and src_of(x.targets[0]) == kv0 and src_of(x.value) == "start"]
+            if starts:
+                first_body, first_var = before[starts[-1] + 1 :], kv0
+    if len(fills) == 1 and first_body is not None:
         kv = src_of(fills[0].target)
-        st = {src_of(s.targets[0]): src_of(s.value) for s in fills[0].body if isinstance(s, ast.Assign)}
-        f0 = {src_of(s.targets[0]): src_of(s.value) for s in firsts[0].body if isinstance(s, ast.Assign)}
+        st = {src_of(s.targets[0]): _subst_flags(src_of(s.value)) for s in fills[0].body if isinstance(s, ast.Assign)}
+        f0 = {src_of(s.targets[0]): _subst_flags(src_of(s.value)) for s in first_body if isinstance(s, ast.Assign)}
+        firsts = [type("L", (), {"target": ast.Name(id=first_var, ctx=ast.Load())})()]
         terms = {"self.sample_w_left": "w", "self.sample_wy_left": "w * y_", "self.sample_wy2_left": "w * y_ * y_"}
         okf = all(st.get(f"{b}[{kv}]") == f"{b}[{kv} - 1] + {t}" and f0.get(f"{b}[{src_of(firsts[0].target)}]") == t for b, t in terms.items())
         okf = okf and st.get("ks") == f"sample_indices[{kv}]" and st.get("y_") == "y[ks, 0]" and st.get("w") == "sample_weight[ks] if sample_weight is not None else 1.0"
